@@ -1,6 +1,6 @@
 (* Correspondence and property predicates for the cases written by harness/cmd/h_adapt. *)
 From Coq Require Import String Ascii List Bool ZArith Arith.
-From NRI Require Import Base.Strs Base.Assoc Model.Types Model.Result Model.Generate Spec.Apply Spec.AbsLedger Spec.Updates.
+From NRI Require Import Base.Strs Base.Assoc Model.Types Model.Result Model.Generate Spec.Apply Spec.AbsLedger Spec.Updates Spec.GenSpec.
 Import ListNotations.
 Open Scope string_scope.
 Open Scope list_scope.
@@ -129,7 +129,6 @@ Definition own_overlay (id : string) (req : resources) (rps : list response) : r
                                    (rp_updates rp) r) rps req.
 
 Definition holds_C04 (c : adapt_case) : bool :=
-  let dropped := some_dropped (created_of (ac_req c)) (ac_resps c) in
   match ac_req c with
   | RCreate c0 =>
       views_ok 0 (ac_views c) (fun i v =>
@@ -138,8 +137,10 @@ Definition holds_C04 (c : adapt_case) : bool :=
         | _ => false
         end)
   | RUpdate id req =>
-      dropped ||
+      (* I2: silent once an ignore-failure update was dropped among the plugins before position i
+         (judged on the prefix: the whole history may end in a hard conflict) *)
       views_ok 0 (ac_views c) (fun i v =>
+        some_dropped None (firstn i (ac_resps c)) ||
         match v with
         | ShownResources x => res_obs_eqb x (own_overlay id req (firstn i (ac_resps c)))
         | _ => false
@@ -195,21 +196,8 @@ Definition spec_eqb (a b : spec) : bool :=
 
 Definition corr_gen (c : gen_case) : bool := spec_eqb (gen_adjust (gc_adjust c) (gc_spec c)) (gc_out c).
 
-(* the part of the reference result the generator is documented to apply: a memory limit of 0 is
-   "no request" (W6), the swap limit follows the limit, only CPU / memory limit / pids / classes of the scalars *)
-Definition gen_view (a : adjustment) : adjustment :=
-  let sc := r_scal (a_res a) in
-  let keep := filter (fun e => match fst e with
-                               | CpuShares | CpuQuota | CpuPeriod | CpuRtRuntime | CpuRtPeriod | CpuCpus | CpuMems | Pids => true
-                               | MemLimit => match snd e with VZ 0 => false | _ => true end
-                               | BlockioClass | RdtClass => match snd e with VS "" => false | _ => true end
-                               | _ => false end) sc in
-  let swap := match flookup MemLimit keep with Some v => [(MemSwap, v)] | None => [] end in
-  with_a_res a {| r_scal := keep ++ swap; r_hp := r_hp (a_res a); r_uni := r_uni (a_res a) |}.
-
-Definition cleared_classes (a : adjustment) (c : container) : container :=
-  let drop f sc := match flookup f (r_scal (a_res a)) with Some (VS "") => fremove f sc | _ => sc end in
-  with_c_res c {| r_scal := drop RdtClass (drop BlockioClass (r_scal (c_res c))); r_hp := r_hp (c_res c); r_uni := r_uni (c_res c) |}.
+(* gen_view (the part of the reference result the generator is documented to apply) and
+   cleared_classes are defined in Spec/GenSpec.v, shared with the theorems of Properties/C13.v *)
 
 Definition holds_C13 (c : gen_case) : bool :=
   gc_deterministic c &&
